@@ -235,8 +235,11 @@ def plan(tier, seed):
   return jobs
 
 
-ABORT_TEMPLATES = ['group', 'nested', 'subtest', 'two-groups', 'swallow']
-ABORT_SIGS = ('C04/teardown-skipped', 'C04/plug-teardown-skipped', 'C04/body-started-after-abort/main', 'C04/body-started-after-abort/setup')
+ABORT_TEMPLATES = ['group', 'nested', 'subtest', 'two-groups', 'swallow', 'slow-exit']
+# 'bodies-overlap' in these templates = a teardown body started while a main body of its group was still running
+# ("teardown runs ... after the group's main nodes stop")
+ABORT_SIGS = ('C04/teardown-skipped', 'C04/plug-teardown-skipped', 'C04/body-started-after-abort/main', 'C04/body-started-after-abort/setup',
+              'C04/bodies-overlap')
 
 
 def run_job(job, acct):
